@@ -23,6 +23,7 @@ from . import build, gen
 from .common import ROOT, Sub, Violation, jdumps, jloads, HarnessError
 
 ID = "C17"
+CGF = False   # the code under test runs in the sanitised worker process; nothing for python coverage to guide
 RULE = ("Hypothesis-generated sequences of 1..6 calls of anneal_qubo/quso/pubo/puso executed in one persistent process "
         "against an ASan+UBSan build of the extension compiled from the working tree: single variable, isolated variables, "
         "Matrix label gaps, degree up to 8, up to 40 terms (many on one spin: realloc growth), no couplings, only an offset, "
